@@ -52,8 +52,7 @@ pub(crate) fn permutation_expressions<S: SelfEmulation>(
 
     // Enforce only for the first set.
     // l_0(X) * (1 - z_0(X)) = 0
-    let id_1 = {
-        let first_set = permutation_evals.sets.first().unwrap();
+    let id_1 = permutation_evals.sets.first().map(|first_set| {
         let z_0 = &first_set.permutation_product_eval;
 
         // l_0 * (1 - z_0) computed as l_0 - l_0 * z_0
@@ -64,13 +63,12 @@ pub(crate) fn permutation_expressions<S: SelfEmulation>(
             (S::F::ZERO, l_0),
             S::F::ZERO,
             -S::F::ONE,
-        )?
-    };
+        )
+    });
 
     // Enforce only for the last set.
     // l_last(X) * (z_l(X)^2 - z_l(X)) = 0
-    let id_2 = {
-        let last_set = permutation_evals.sets.last().unwrap();
+    let id_2 = permutation_evals.sets.last().map(|last_set| {
         let z_l = &last_set.permutation_product_eval;
 
         // z_l**2 - z_l
@@ -82,8 +80,8 @@ pub(crate) fn permutation_expressions<S: SelfEmulation>(
             S::F::ZERO,
             S::F::ONE,
         )?;
-        scalar_chip.mul(layouter, l_last, &aux, None)?
-    };
+        scalar_chip.mul(layouter, l_last, &aux, None)
+    });
 
     // Except for the first set, enforce.
     // l_0(X) * (z_i(X) - z_{i-1}(\omega^(last) X)) = 0
@@ -186,7 +184,9 @@ pub(crate) fn permutation_expressions<S: SelfEmulation>(
         })
         .collect::<Result<Vec<AssignedNative<S::F>>, Error>>()?;
 
-    Ok([vec![id_1, id_2], ids_3, ids_4].concat())
+    let ids_1_2 = (id_1.into_iter().chain(id_2)).collect::<Result<Vec<_>, Error>>()?;
+
+    Ok([ids_1_2, ids_3, ids_4].concat())
 }
 
 fn get_query_index<C: ColumnType>(column: Column<Any>, queries: &[(Column<C>, Rotation)]) -> usize
